@@ -15,6 +15,7 @@ import XlModel.Lemmas.DateOrder
 import XlModel.Lemmas.DateFloat
 import XlModel.Lemmas.DateFloatDec
 import XlModel.Lemmas.DateGlue
+import XlModel.Lemmas.DateRender
 
 namespace XlModel.Props.C19
 open XlModel XlModel.Date XlModel.Date.Impl
@@ -704,6 +705,200 @@ theorem duration_precision_witness :
     ∃ x : Rat, |x - durationSerial (17280001 * 1000000000)| ≤ durTol (17280001 * 1000000000) ∧
       ⌊x * 86400 + 1 / 2⌋ = 17280003 :=
   duration_bound_sharp
+
+/-- the day-count clause on the float path: the float64 `timeToExcelTime` computes for a valid wall
+clock (year ≥ 1900 resp. 1904, up to 9999-12-31) is within `encTol` of Excel's day count
+(`Spec.serialSeconds`: summation count with the fictitious 1900-02-29, plus the seconds) / 86400 -/
+theorem serial_daycount_float (R : Rounding) (c : Civil) (date1904 : Bool) (hw : ValidWall c)
+    (hy : if date1904 then 1904 ≤ c.y else 1900 ≤ c.y) (hr2 : daysFromCivil c.y c.m c.d ≤ 2932896) :
+    |timeToExcelTimeF (ratOps R) (instantOf c) date1904
+        - (Spec.serialSeconds date1904 c.y c.m c.d c.h c.mi c.s : Rat) / 86400|
+      ≤ encTol (timeToExcelTimeNs (instantOf c) date1904) := by
+  obtain ⟨hv, h0, h1, m0, m1, s0, s1, hns0⟩ := hw
+  have hc : c = { y := c.y, m := c.m, d := c.d, h := c.h, mi := c.mi, s := c.s, ns := 0 } := by
+    cases c; simp only [] at hns0; subst hns0; rfl
+  have hcount := serial_daycount c.y c.m c.d c.h c.mi c.s date1904 hv hy h0 h1 m0 m1 s0 s1
+  rw [← hc] at hcount
+  have hN : timeToExcelTimeNs (instantOf c) date1904 < 2958466 * 86400000000000 := by
+    obtain ⟨_, e4, emin, eb⟩ := epochs_ok
+    rw [serial_exact, e4, emin, eb]
+    unfold instantOf
+    have hns : nsPerSec = 1000000000 := by decide
+    rw [hns, hns0]
+    cases date1904
+    · simp only [Bool.false_eq_true, if_false]
+      split
+      · omega
+      · split <;> omega
+    · simp only [if_true]
+      split <;> omega
+  have he := encode_error R (instantOf c) date1904 hN
+  unfold timeToExcelTime at he
+  have hd : Facts.C19.dayNanoseconds = 86400000000000 := by decide
+  have hq : ((timeToExcelTimeNs (instantOf c) date1904 : Int) : Rat) / (Facts.C19.dayNanoseconds : Rat)
+      = (Spec.serialSeconds date1904 c.y c.m c.d c.h c.mi c.s : Rat) / 86400 := by
+    rw [hcount, hd]; push_cast; field_simp; ring
+  rw [hq] at he
+  exact he
+
+/-- the monotonicity clause on the float path: a later wall clock (from the first day of the
+system to 9999-12-31) gets a strictly larger float64, for every rounding function of the standard model -/
+theorem serial_monotone_float (R : Rounding) (a b : Civil) (date1904 : Bool) (ha : ValidWall a) (hb : ValidWall b)
+    (h : WallLt a b)
+    (h0 : if date1904 then -24107 ≤ daysFromCivil a.y a.m a.d else -25568 ≤ daysFromCivil a.y a.m a.d)
+    (hb2 : daysFromCivil b.y b.m b.d ≤ 2932896) :
+    timeToExcelTimeF (ratOps R) (instantOf a) date1904 < timeToExcelTimeF (ratOps R) (instantOf b) date1904 := by
+  have hNb : timeToExcelTimeNs (instantOf b) date1904 < 2958466 * 86400000000000 := by
+    obtain ⟨_, b1, b2, b3, b4, b5, b6, b7⟩ := hb
+    obtain ⟨_, e4, emin, eb⟩ := epochs_ok
+    rw [serial_exact, e4, emin, eb]
+    unfold instantOf
+    have hns : nsPerSec = 1000000000 := by decide
+    rw [hns, b7]
+    cases date1904
+    · simp only [Bool.false_eq_true, if_false]
+      split
+      · omega
+      · split <;> omega
+    · simp only [if_true]
+      split <;> omega
+  have hNa : timeToExcelTimeNs (instantOf a) date1904 < 2958466 * 86400000000000 :=
+    lt_of_le_of_lt (serial_monotone_wallclock a b date1904 ha hb h) hNb
+  have tol30 : ∀ n : Int, encTol n ≤ pow2 30 := by
+    intro n; unfold encTol; split
+    · rw [pow2_40, pow2_30]; norm_num
+    · exact le_refl _
+  exact (serial_strict_monotone_wallclock a b date1904 _ _ ha hb h h0
+    (le_trans (encode_error R (instantOf a) date1904 hNa) (tol30 _))
+    (le_trans (encode_error R (instantOf b) date1904 hNb) (tol30 _))).2
+
+/-! ## from SetCellValue(time) to the rendered text (composition with C10's number-format model) -/
+
+/-- clause "so a date written by excelize renders as the same calendar date under a date format",
+as ONE composed statement from `SetCellValue(time.Time)` to the text `GetCellValue` returns:
+for every rounding function of `Rounding2`, both date systems (the workbook's flag), every valid wall
+clock c from 1900-03-01 / 1904-01-01 00:00:00 to 9999-12-31 23:59:59, every zone offset, an unstyled cell:
+* the cell stores the number and gets the default style `getTimeNumFmt c` (17 / 14 / 22);
+* for the stored float x and every x' within 5·10⁻¹⁵·x of it (the reader cuts the text to 15 significant
+  digits; measured on every `rend` line), C10's `dateTimeHandler` on C19's decoder (`DateRender.render`)
+  prints, under `yyyy-mm-dd hh:mm:ss`, format 14 `mm-dd-yy`, 17 `mmm-yy` and 22 `m/d/yy hh:mm`, exactly
+  the fields of c. -/
+theorem written_time_renders (R : Rounding2) (c : Civil) (off : Int) (date1904 : Bool) (x' : Rat) (hw : ValidWall c)
+    (hr : if date1904 then -24107 ≤ daysFromCivil c.y c.m c.d else -25508 ≤ daysFromCivil c.y c.m c.d)
+    (hr2 : daysFromCivil c.y c.m c.d ≤ 2932896)
+    (hx' : |x' - timeToExcelTimeF (ratOps R.toRounding) (instantOf c) date1904|
+      ≤ timeToExcelTimeF (ratOps R.toRounding) (instantOf c) date1904 * (5 / 1000000000000000)) :
+    setCellTimeFunc (some date1904) none (instantOf c - off * nsPerSec) off c
+      = (.num (timeToExcelTimeNs (instantOf c) date1904),
+         some { numFmt := getTimeNumFmt c, custom := false, bold := false }) ∧
+    DateRender.render DateRender.itemsIso x' date1904 =
+      .ok (NumFmt.itoaInt c.y ++ ['-'] ++ NumFmt.pad2 c.m.toNat ++ ['-'] ++ NumFmt.pad2 c.d.toNat ++ [' '] ++
+        NumFmt.pad2 c.h.toNat ++ [':'] ++ NumFmt.pad2 c.mi.toNat ++ [':'] ++ NumFmt.pad2 c.s.toNat) ∧
+    DateRender.render DateRender.items14 x' date1904 =
+      .ok (NumFmt.pad2 c.m.toNat ++ ['-'] ++ NumFmt.pad2 c.d.toNat ++ ['-'] ++ DateRender.yy c.y) ∧
+    DateRender.render DateRender.items17 x' date1904 =
+      .ok (DateRender.month3En c.m.toNat ++ ['-'] ++ DateRender.yy c.y) ∧
+    DateRender.render DateRender.items22 x' date1904 =
+      .ok (NumFmt.itoa c.m.toNat ++ ['/'] ++ NumFmt.itoa c.d.toNat ++ ['/'] ++ DateRender.yy c.y ++ [' '] ++
+        NumFmt.pad2 c.h.toNat ++ [':'] ++ NumFmt.pad2 c.mi.toNat) := by
+  have hstored := stored_numeric c off date1904 hw hr
+  obtain ⟨hv, h0, h1, m0, m1, s0, s1, hns0⟩ := hw
+  have hc : c = { y := c.y, m := c.m, d := c.d, h := c.h, mi := c.mi, s := c.s, ns := 0 } := by
+    cases c; simp only [] at hns0; subst hns0; rfl
+  refine ⟨?_, ?_⟩
+  · unfold setCellTimeFunc
+    simp only [hstored, setDefaultTimeStyle]
+  -- the exact serial and the float error
+  have hclosed := serial_daycount_closed c.y c.m c.d c.h c.mi c.s date1904 hr h0 m0 s0
+  rw [← hc] at hclosed
+  have hN : timeToExcelTimeNs (instantOf c) date1904 < 2958466 * 86400000000000 := by
+    rw [hclosed]; cases date1904
+    · simp only [Bool.false_eq_true, if_false]; omega
+    · simp only [if_true]; omega
+  have he := encode_error R.toRounding (instantOf c) date1904 hN
+  generalize timeToExcelTimeF (ratOps R.toRounding) (instantOf c) date1904 = x at he hx'
+  unfold timeToExcelTime at he
+  rw [hclosed] at he
+  generalize hDdef : daysFromCivil c.y c.m c.d - (if date1904 then -24107 else -25569) = D at he
+  have hD0 : 0 ≤ D := by
+    rw [← hDdef]; cases date1904
+    · simp only [Bool.false_eq_true, if_false] at hr ⊢; omega
+    · simp only [if_true] at hr ⊢; omega
+  have hDmax : D ≤ 2958465 := by
+    rw [← hDdef]; cases date1904
+    · simp only [Bool.false_eq_true, if_false]; omega
+    · simp only [if_true]; omega
+  have hk0 : 0 ≤ c.h * 3600 + c.mi * 60 + c.s := by omega
+  have hk : c.h * 3600 + c.mi * 60 + c.s < 86400 := by omega
+  generalize hkdef : c.h * 3600 + c.mi * 60 + c.s = k at *
+  have hd : Facts.C19.dayNanoseconds = 86400000000000 := by decide
+  have hq : ((D * 86400000000000 + k * 1000000000 : Int) : Rat) / (Facts.C19.dayNanoseconds : Rat)
+      = (D : Rat) + (k : Rat) / 86400 := by
+    rw [hd]; push_cast; ring
+  rw [hq] at he
+  have hDq0 : (0 : Rat) ≤ (D : Rat) := by exact_mod_cast hD0
+  have hDqmax : (D : Rat) ≤ 2958465 := by exact_mod_cast hDmax
+  have hkq0 : (0 : Rat) ≤ (k : Rat) / 86400 := by
+    apply div_nonneg _ (by norm_num); exact_mod_cast hk0
+  have hkq1 : (k : Rat) / 86400 ≤ 1 := by
+    rw [div_le_one (by norm_num)]; exact_mod_cast (show k ≤ 86400 by omega)
+  have hx : |x' - ((D : Rat) + (k : Rat) / 86400)| ≤ decTol D := by
+    have hnd : nsPerDay = 86400000000000 := by decide
+    obtain ⟨a1, a2⟩ := abs_le.mp hx'
+    unfold encTol at he
+    rw [hnd] at he
+    unfold decTol
+    by_cases hD62 : D ≤ 62
+    · rw [if_pos hD62, pow2_38]
+      rw [if_pos (by omega), pow2_40] at he
+      obtain ⟨b1, b2⟩ := abs_le.mp he
+      have hDq : (D : Rat) ≤ 62 := by exact_mod_cast hD62
+      rw [abs_le]; constructor <;> linarith
+    · rw [if_neg hD62, pow2_18]
+      have he' : |x - ((D : Rat) + (k : Rat) / 86400)| ≤ 1 / 1073741824 := by
+        refine le_trans he ?_
+        split
+        · rw [pow2_40]; norm_num
+        · rw [pow2_30]
+      obtain ⟨b1, b2⟩ := abs_le.mp he'
+      rw [abs_le]; constructor <;> linarith
+  have hdec := decode_tolerant x' date1904 D k hD0 hk0 hk hx
+  -- the fields C10's handlers read
+  have hday : NumFmt.epochDay date1904 + D = daysFromCivil c.y c.m c.d := by
+    unfold NumFmt.epochDay; rw [← hDdef]; omega
+  have ht0 : ∀ l0 l1, (NumFmt.dateInOfSerial x' date1904 l0 l1).t0 =
+      { year := c.y, month := c.m.toNat, day := c.d.toNat, hour := c.h.toNat, minute := c.mi.toNat,
+        second := c.s.toNat, nano := 0, elapsedSec := D * 86400 + k } := by
+    intro l0 l1
+    unfold NumFmt.dateInOfSerial
+    simp only [hdec]
+    rw [NumFmt.timeFOfInstant_eval date1904 D k hk0 hk]
+    unfold NumFmt.civilTimeF
+    simp only [hday, civil_roundtrip_date c.y c.m c.d hv]
+    have e1 : k / 3600 = c.h := by omega
+    have e2 : k % 3600 / 60 = c.mi := by omega
+    have e3 : k % 60 = c.s := by omega
+    rw [e1, e2, e3]
+  have hyr : ∀ l0 l1, NumFmt.YearOK (NumFmt.dateInOfSerial x' date1904 l0 l1).t0 := by
+    intro l0 l1
+    apply NumFmt.yearOK_of_ge
+    rw [ht0]
+    have := NumFmt.year_ge_1600 date1904 D hD0
+    rw [hday, civil_roundtrip_date c.y c.m c.d hv] at this
+    simp only [] at this ⊢; omega
+  have hmonth : (NumFmt.timeFOfInstant (timeFromExcelTime x' date1904) date1904).month = c.m.toNat := by
+    have := ht0 (fun _ => DateRender.enLocale 0) (fun _ => DateRender.enLocale 0)
+    unfold NumFmt.dateInOfSerial at this
+    simp only [] at this
+    rw [this]
+  unfold DateRender.render
+  simp only [hmonth]
+  refine ⟨?_, ?_, ?_, ?_⟩
+  · rw [DateRender.rIso _ _ (by rw [ht0]; show (0 : Nat) < 500000000; omega), ht0]
+  · rw [DateRender.r14 _ _ (by rw [ht0]; show (0 : Nat) < 500000000; omega) (hyr _ _), ht0]
+  · rw [DateRender.r17 _ _ (by rw [ht0]; show (0 : Nat) < 500000000; omega) (hyr _ _), ht0]
+    rfl
+  · rw [DateRender.r22 _ _ (by rw [ht0]; show (0 : Nat) < 500000000; omega) (hyr _ _), ht0]
 
 /-- FIXED (known_findings.d key `enc:zero-serial-stored-as-text`): in the 1904 system the first
 instant of the range, 1904-01-01T00:00:00, read in any zone, is now stored as the number 0 (it used to
